@@ -242,6 +242,9 @@ impl Check for TermCheck {
     }
     fn gen(&self, rng: &mut Rng, tier: Tier, _index: u64) -> Scenario {
         let fl = self.0;
+        if fl == Flavor::C02 && rng.chance(1, 4) {
+            return crate::c02s::gen_sched(rng, tier);
+        }
         let multi = match fl {
             Flavor::C01 => false,
             Flavor::C16 => rng.chance(1, 4),
@@ -365,6 +368,9 @@ impl Check for TermCheck {
         sc
     }
     fn exec(&self, sc: &Scenario) -> Report {
+        if sc.mode == "sched" {
+            return crate::c02s::exec_sched(sc);
+        }
         let mut r = exec_stage(sc, self.pid());
         // C03 reports only damage to printed lines; everything else belongs to C01/C02/C04/C19
         if self.0 == Flavor::C03 {
